@@ -252,6 +252,9 @@ func main() {
 	// hx.NewRand(seed) has state seed*C+k, and every draw adds C: the streams of seeds 1, 2, 3 are the
 	// same stream shifted by one draw and re-synchronise. Re-seed from a mixed output instead.
 	c.Rng = hx.NewRand(c.Rng.U64() ^ 0x5bd1e995c3a7f1d3)
+	// emitCase=false: the history is judged by the oracle only (thorough tier: the Coq
+	// correspondence gets a sample of the exhaustive enumeration, the oracle gets all of it)
+	emitCase := true
 	runOne := func(kind string, h Hist) {
 		c.Obs.Evaluations++
 		c.Count(fmt.Sprintf("%s:ops=%d", kind, len(h.Ops)/5*5))
@@ -286,7 +289,12 @@ func main() {
 		b.StopTimer()
 		hh := Hist{h.Init, h.Ops[:len(obs)]}
 		js := map[string]interface{}{"init": hh.Init, "ops": hh.Ops}
-		sh, ix := c.Case(coqCase(hh, obs), js)
+		sh, ix := -1, 0
+		if emitCase {
+			sh, ix = c.Case(coqCase(hh, obs), js)
+		} else {
+			c.Count("oracle-only(no correspondence)")
+		}
 		if filled || setWithPending {
 			c.Nontrivial(histString(hh))
 		}
@@ -363,12 +371,15 @@ func main() {
 				ops[i] = alpha[y%n]
 				y /= n
 			}
+			emitCase = x%40 == 0
 			runOne("exhaustive", Hist{10, ops})
 		}
+		emitCase = true
 	}
 
 	nh := c.N(600, 20000)
 	for it := 0; it < nh; it++ {
+		emitCase = it < 1500
 		r := c.Rng
 		base := r.Range(1, 20)
 		R := r.Range(3, 40)
@@ -480,6 +491,7 @@ func main() {
 		}
 		runOne(kind, Hist{init, ops})
 	}
+	emitCase = true
 	managerLevel(c)
 	c.Obs.Rule = "histories of <=30 ops (Handle/SetState/ClearGaps) over a synthetic server log tiling [base,base+R), R<=40, with multi-count, overlapping and zero-count variants, loss, duplication, reordering, late fills and interleaved differences; 1/12 malformed (zero/negative positions, negative counts, backward SetState: correspondence and no-panic only); thorough adds all 6^6 histories over a 3-update log; non-trivial = distinct history in which an opened gap is later filled by arrival (one apply call with >=2 updates) or a difference arrives while updates are pending; plus manager-level histories (real updates.Manager, fake server, see C02) checked for at-most-once and in-order delivery at the handler (on every prefix of the real trace; positions served by the difference in progress count as covered)"
 	c.Finish()
@@ -549,7 +561,7 @@ func managerLevel(c *hx.Ctx) {
 		h.Ops = append(h.Ops, updsim.FinalOps(cfg, v)...)
 		hs = append(hs, h)
 	}
-	n := c.N(80, 1500)
+	n := c.N(80, 600)
 	for i := 0; i < n; i++ {
 		hs = append(hs, updsim.Gen(c.Rng, updsim.GenOpts{MaxEntries: 12, MaxChans: 2}))
 	}
